@@ -215,6 +215,16 @@ func K6(variant int) *Entry {
 		c := BaseConfig("Marked")
 		c.Sort, c.SortSet = false, true
 		return &Entry{Name: "k6d", File: f, Cfg: c, Tags: []string{"embed", "embed?", "embedded-empty-msg", "sort-off"}}
+	case 4:
+		// excluded children of embedded messages (nullable and by value): the struct fields exist, the schema does not describe them
+		meta := M("Meta", F("MetaName"), F("Revision", Sc(ir.Int64)), F("Internal"), F("HiddenBlob", Sc(ir.Bytes)), F("When", TS(), Null()))
+		audit := M("Audit", F("AuditNote"), F("AuditSecret"), F("AuditCount", Sc(ir.Int32)))
+		holder := M("Record", F("Title"), F("Meta", MsgT("Meta"), Embed()), F("Audit", MsgT("Audit"), NonNull(), Embed()), F("Count", Sc(ir.Int64)), F("Skipped"))
+		f := file("k6e", holder, meta, audit)
+		AutoComments(f)
+		c := BaseConfig("Record")
+		c.ExcludeFields = []string{"Meta.Internal", "Record.HiddenBlob", "Audit.AuditSecret", "Record.Skipped"}
+		return &Entry{Name: "k6e", File: f, Cfg: c, Tags: []string{"embed", "embed?", "excluded-embed-child"}}
 	default:
 		opt := M("Extra", F("ExtraName"), F("ExtraCount", Sc(ir.Int64)), F("ExtraFlag", Sc(ir.Bool)), F("ExtraKind", EnumT("Mode")), F("ExtraBlob", Sc(ir.Bytes)),
 			F("ExtraWhen", TS(), Null()), F("ExtraSpan", Dur(), NonNull()), F("ExtraTags", Rep()), F("ExtraDict", MapOf()), F("ExtraLeaf", MsgT("Leaf")),
@@ -485,7 +495,7 @@ func K14() *Entry {
 // Curated returns the curated corpus. known=true adds the isolated shapes that
 // are known not to compile on the pinned tree (D1, D2).
 func Curated() []*Entry {
-	return []*Entry{K1(), K2(), K3(), K4(), K5(), K6(0), K6(1), K6(2), K6(3), K7(), K7X(), K8(), K9(), K10(false), K10(true), K12(), K13(), K14()}
+	return []*Entry{K1(), K2(), K3(), K4(), K5(), K6(0), K6(1), K6(2), K6(3), K6(4), K7(), K7X(), K8(), K9(), K10(false), K10(true), K12(), K13(), K14()}
 }
 
 // Exotic returns the isolated shapes (K11).
